@@ -331,7 +331,7 @@ def w_scope_grid(acc):
         {"t": "entry", "type": "book", "key": "b3", "fields": [["author", np2, 16]], "line": 15, "raw": "@book{b3}"},
         {"t": "string", "key": "t", "value": "bad " + libgen.MARKER, "line": 17, "raw": "@string{t}"},
         # many strings in one entry: the one that cannot be converted is the 13th (fields and name parts count in field order)
-        {"t": "entry", "type": "misc", "key": "b4", "fields": [["f%d" % i, "fine é %d" % i, 31 + i] for i in range(6)] + [["author", [np_, np_], 37]] + [["g%d" % i, "é", 38 + i] for i in range(3)] + [["last", "bad " + libgen.MARKER, 41], ["after", "é", 42]], "line": 30, "raw": "@misc{b4}"},
+        {"t": "entry", "type": "misc", "key": "b4", "fields": [["f%d" % i, "fine é %d" % i, 31 + i] for i in range(8)] + [["author", np_, 39]] + [["g%d" % i, "é", 40 + i] for i in range(3)] + [["last", "bad " + libgen.MARKER, 43], ["after", "é", 44]], "line": 30, "raw": "@misc{b4}"},
         {"t": "dupfield", "entry": {"type": "misc", "key": "d", "fields": [["a", "é", 19], ["a", "\\'e", 19]], "line": 18, "raw": "@misc{d}"}, "keys": ["a"]},
         {"t": "mwerror", "entry": {"type": "misc", "key": "m", "fields": [["a", "é", 21]], "line": 20, "raw": "@misc{m}"}, "err": "invalidname"},
     ]
